@@ -168,6 +168,8 @@ def tensor_method(it: Any, v: TV, name: str, args: List[Any], kwargs: Dict[str, 
         return v.shape
     if name == "is_floating_point":
         return TV(term, kind="opaque")
+    if name == "stride" and v.shape is not None and not args:
+        return tuple(sp.Symbol(f"stride{i}({fmt(v.term)})", integer=True, nonnegative=True) for i in range(len(v.shape)))
     if name in SCALAR_METHODS:
         from .builtins_model import data_scalar
 
@@ -434,7 +436,7 @@ def call_ext(it: Any, f: ExtV, args: List[Any], kwargs: Dict[str, Any], node: An
         it.log("call", node, callee=name, args=args, kwargs=kwargs, bound=None, result=term)
         return Obj("torch.nn.Parameter", term=term)
     if name == "torch._utils._get_obj_state" and args and isinstance(args[0], Obj):
-        return dict(args[0].attrs)
+        return args[0].attrs  # the live instance __dict__ (object.__getstate__ on python >= 3.11)
     if name in ("collections.OrderedDict", "typing.OrderedDict") and not args:
         return dict(kwargs)
     if name in ("torch.nn.Parameter", "torch.nn.parameter.Parameter"):
